@@ -172,17 +172,22 @@ macro_rules! float_checks {
 
             /// unit conversion: round trip within 4 eps, absolute factor within 4 eps, full turns
             pub fn convert(d: &mut Draw) -> Outcome {
-                let a = d.f64_slog($lo, $hi) as F;
+                // degrees: every magnitude up to the largest finite value (the radian measure is smaller, so
+                // nothing overflows); radians: up to MAX/64 (beyond that the degree measure is not representable)
+                let huge = d.chance(1, 6);
+                let top = F::MAX as f64;
+                let a = if huge { (top * d.f64_in(0.02, 1.0) * if d.bool() { 1.0 } else { -1.0 }) as F } else { d.f64_slog($lo, $hi) as F };
                 d.note("a", &a);
                 let back = Deg::from(Rad::from(Deg(a))).0;
                 let rel = ((back as f64 - a as f64) / a as f64).abs();
                 ensure!(rel <= 4.0 * EPS, "deg-rad-deg", "Deg({:e}) -> Rad -> Deg = {:e}: relative error {:e} > 4 eps", a, back, rel);
-                let back = Rad::from(Deg::from(Rad(a))).0;
-                let rel = ((back as f64 - a as f64) / a as f64).abs();
-                ensure!(rel <= 4.0 * EPS, "rad-deg-rad", "Rad({:e}) -> Deg -> Rad = {:e}: relative error {:e} > 4 eps", a, back, rel);
                 let r = Rad::from(Deg(a)).0 as f64;
                 let want = a as f64 * (PI64 / 180.0);
                 ensure!(((r - want) / want).abs() <= 4.0 * EPS, "deg-to-rad-factor", "Rad::from(Deg({:e})) = {:e}, expected a*pi/180 = {:e}", a, r, want);
+                let a = if huge { a / 64.0 } else { a };
+                let back = Rad::from(Deg::from(Rad(a))).0;
+                let rel = ((back as f64 - a as f64) / a as f64).abs();
+                ensure!(rel <= 4.0 * EPS, "rad-deg-rad", "Rad({:e}) -> Deg -> Rad = {:e}: relative error {:e} > 4 eps", a, back, rel);
                 let dg = Deg::from(Rad(a)).0 as f64;
                 let want = a as f64 * (180.0 / PI64);
                 ensure!(((dg - want) / want).abs() <= 4.0 * EPS, "rad-to-deg-factor", "Deg::from(Rad({:e})) = {:e}, expected a*180/pi = {:e}", a, dg, want);
@@ -200,7 +205,7 @@ macro_rules! float_checks {
                 for (k, v) in [(2.0, Deg::<F>::turn_div_2().0), (3.0, Deg::<F>::turn_div_3().0), (4.0, Deg::<F>::turn_div_4().0), (6.0, Deg::<F>::turn_div_6().0)] {
                     ensure!((v as f64 * k - 360.0).abs() <= 4.0 * EPS * 360.0, "deg-turn_div", "Deg::turn_div_{}() * {} = {}", k, k, v as f64 * k);
                 }
-                pass(if a.abs() < 1e-6 { "small" } else if a.abs() > 1e6 { "large" } else { "moderate" }, true)
+                pass(if huge { "near-max" } else if a.abs() < 1e-6 { "small" } else if a.abs() > 1e6 { "large" } else { "moderate" }, true)
             }
 
             /// sin, cos, tan, sin_cos, csc, sec, cot against libm (oracle evaluated in f64)
@@ -387,8 +392,8 @@ pub fn property() -> Property {
     add!("modular-Rad-Q", "Q", exact_rad, 6000, 400_000, 24, PAIRS, "a != b and a not a whole number of turns");
     add!("normalize-f64", "f64", f64c::normalize, 20000, 2_000_000, 12, NORM, "any non-zero finite value; classes raw-bits/tiny-negative/turn-multiple/huge/subnormal required");
     add!("normalize-f32", "f32", f32c::normalize, 20000, 2_000_000, 12, NORM, "any non-zero finite value; classes raw-bits/tiny-negative/turn-multiple/huge/subnormal required");
-    add!("convert-f64", "f64", f64c::convert, 10000, 1_000_000, 8, &[("small", 100), ("large", 100)], "every generated magnitude (log-uniform over the non-over/underflowing range)");
-    add!("convert-f32", "f32", f32c::convert, 10000, 1_000_000, 8, &[("small", 100), ("large", 100)], "every generated magnitude (log-uniform over the non-over/underflowing range)");
+    add!("convert-f64", "f64", f64c::convert, 10000, 1_000_000, 16, &[("small", 100), ("large", 100), ("near-max", 50)], "every generated magnitude (log-uniform over the non-over/underflowing range)");
+    add!("convert-f32", "f32", f32c::convert, 10000, 1_000_000, 16, &[("small", 100), ("large", 100), ("near-max", 50)], "every generated magnitude (log-uniform over the non-over/underflowing range)");
     add!("trig-f64", "f64", f64c::trig, 10000, 1_000_000, 12, &[("regular", 300)], "|x| > 1e-3 rad");
     add!("trig-f32", "f32", f32c::trig, 10000, 1_000_000, 12, &[("regular", 300)], "|x| > 1e-3 rad");
     add!("inverse-f64", "f64", f64c::inverse, 8000, 500_000, 24, &[("rad", 200), ("deg", 200)], "every generated ratio / quadrant");
